@@ -179,7 +179,8 @@ type fieldsX struct {
 	globals    map[string]string // zap package-level vars usable in conditions: name → Lean def name
 	gdefs      []string
 	fsets      map[string]*token.FileSet
-	errElemOK  bool // errArrayElem.MarshalLogObject has the expected shape
+	funcs      map[string]*ast.FuncDecl // "zap.appendStringer": plain functions of the files read
+	errElemOK  bool                     // errArrayElem.MarshalLogObject has the expected shape
 	usesHolder bool
 }
 
@@ -280,7 +281,8 @@ func genFields() (lean string, rows int, err error) {
 			panic(e)
 		}
 	}()
-	x := &fieldsX{ctors: map[string]*ctorInfo{}, wrappers: map[string]*wrapperInfo{}, globals: map[string]string{}, fsets: map[string]*token.FileSet{}}
+	x := &fieldsX{ctors: map[string]*ctorInfo{}, wrappers: map[string]*wrapperInfo{}, globals: map[string]string{}, fsets: map[string]*token.FileSet{},
+		funcs: map[string]*ast.FuncDecl{}}
 	files := []struct{ pkg, rel string }{{"zap", "field.go"}, {"zap", "array.go"}, {"zap", "error.go"}, {"zapfield", "exp/zapfield/zapfield.go"}}
 	type parsed struct {
 		pkg, rel string
@@ -296,6 +298,13 @@ func genFields() (lean string, rows int, err error) {
 		ps = append(ps, parsed{fl.pkg, fl.rel, f, fset})
 	}
 	// 1. wrapper types and package-level time bounds
+	for _, p := range ps {
+		for _, d := range p.f.Decls {
+			if fd, ok := d.(*ast.FuncDecl); ok && fd.Recv == nil && fd.Body != nil {
+				x.funcs[p.pkg+"."+fd.Name.Name] = fd
+			}
+		}
+	}
 	for _, p := range ps {
 		x.collectTypes(p.pkg, p.rel, p.f, p.fset)
 	}
@@ -580,10 +589,47 @@ func (x *fieldsX) marshalArray(w *wrapperInfo, fd *ast.FuncDecl, recv, where str
 	// aliases of the element: `var p P = &os[i]`, and the pooled holder of errArray: `elem := pool.Get(); elem.error = errs[i]`
 	var call *ast.CallExpr
 	nCalls := 0
+	helperNote := ""
 	takeCall := func(e ast.Expr) bool {
 		c, ok := e.(*ast.CallExpr)
 		if !ok {
 			return false
+		}
+		// a helper `h(arr, elem)` whose body is `[defer func(){…}()]; arr.AppendX(f(elem)); return nil`
+		// (the deferred recover only matters when the element's method panics: C10)
+		if id, ok := c.Fun.(*ast.Ident); ok && len(c.Args) == 2 && exprString(c.Args[0]) == arr && elemNames[exprString(c.Args[1])] {
+			h := x.funcs[w.pkg+"."+id.Name]
+			if h == nil || h.Recv != nil || len(h.Body.List) < 2 {
+				return false
+			}
+			hb := h.Body.List
+			if _, isDefer := hb[0].(*ast.DeferStmt); isDefer {
+				hb = hb[1:]
+			}
+			if len(hb) != 2 {
+				return false
+			}
+			es, ok := hb[0].(*ast.ExprStmt)
+			if !ok {
+				return false
+			}
+			if rs, ok := hb[1].(*ast.ReturnStmt); !ok || len(rs.Results) != 1 || exprString(rs.Results[0]) != "nil" {
+				return false
+			}
+			hc, ok := es.X.(*ast.CallExpr)
+			if !ok {
+				return false
+			}
+			hse, ok := hc.Fun.(*ast.SelectorExpr)
+			if !ok || exprString(hse.X) != paramName(h, 0) {
+				return false
+			}
+			// continue with the helper's names
+			elemNames = map[string]bool{paramName(h, 1): true}
+			helperNote = fmt.Sprintf(" via %s(%s, %s)", id.Name, arr, exprString(c.Args[1]))
+			call = hc
+			nCalls++
+			return true
 		}
 		se, ok := c.Fun.(*ast.SelectorExpr)
 		if !ok || exprString(se.X) != arr {
@@ -678,7 +724,7 @@ func (x *fieldsX) marshalArray(w *wrapperInfo, fd *ast.FuncDecl, recv, where str
 		case "time":
 			ev = ".time x"
 		default:
-			ev = ".tok x.tok"
+			ev = ".tok x.id"
 		}
 	default:
 		c, ok := a.(*ast.CallExpr)
@@ -700,7 +746,7 @@ func (x *fieldsX) marshalArray(w *wrapperInfo, fd *ast.FuncDecl, recv, where str
 	}
 	lt := leanTypeOfKind(w.elemKind)
 	var sb strings.Builder
-	fmt.Fprintf(&sb, "/-- %s: `%s.%s(%s)` per element%s -/\n", where, arr, meth, as, map[bool]string{true: ", nil elements skipped", false: ""}[skipNil])
+	fmt.Fprintf(&sb, "/-- %s: `%s.%s(%s)`%s per element%s -/\n", where, arr, meth, as, helperNote, map[bool]string{true: ", nil elements skipped", false: ""}[skipNil])
 	fmt.Fprintf(&sb, "@[simp] def marshal_%s (xs : List %s) : List ACall := %s.map fun x => ⟨.%s, %s⟩\n", w.lname(), lt, src, meth, ev)
 	fmt.Fprintf(&sb, "@[simp] def wrap_%s (xs : List %s) : Payload :=\n  .box { dyn := %s, impl := [\"zapcore.ArrayMarshaler\"], cmp := false, elems := marshal_%s xs }\n",
 		w.lname(), lt, leanStr(w.pkg+"."+w.name), w.lname())
